@@ -464,8 +464,25 @@ class Baton(object):
             self.cv.notify_all()
 
 
-def run_scheduled(schedule, calls, tb):
-    """two threads, one new parser object each, steps interleaved exactly as `schedule` says"""
+def api_call(tb, call):
+    """the call through the module-level convenience functions html5lib.parse / html5lib.parseFragment (non-strict)"""
+    import html5lib
+    src = Source(call["chunks"], call.get("fail", 0), call.get("hook"))
+    try:
+        if call.get("frag"):
+            tree = html5lib.parseFragment(src, container=call["frag"], treebuilder=tb)
+        else:
+            tree = html5lib.parse(src, treebuilder=tb)
+        return "ok", tree, None
+    except SourceError:
+        return "SourceError", None, None
+    except (Exception, RecursionError) as e:
+        return "crash:" + type(e).__name__, None, None
+
+
+def run_scheduled(schedule, calls, tb, api=False):
+    """two threads, steps interleaved exactly as `schedule` says; one new HTMLParser object per thread, or (api) the
+    module-level functions html5lib.parse / parseFragment, whose callers are just as independent of each other"""
     baton = Baton(schedule)
     res = {}
 
@@ -473,6 +490,9 @@ def run_scheduled(schedule, calls, tb):
         try:
             baton.wait(i)
             call = dict(calls[i - 1], hook=lambda k, i=i: baton.wait(i))
+            if api:
+                res[i] = api_call(tb, call)
+                return
             p = new_parser(tb)
             out, tree, er = run_call(p, tb, call)
             res[i] = (out, tree, er)
